@@ -170,6 +170,10 @@ type SigWorker struct {
 	// RealBLS uses real BLS keys (slow: ~1.5 ms per signature here); otherwise symbolic keys are used and
 	// the binding signature <-> (account, signing root) is decided by byte comparison.
 	RealBLS bool
+	// Pinned disables rig recycling (the caller owns the rig).
+	Pinned bool
+	// Accts are the accounts of the last Exec.
+	Accts []*rig.Acct
 }
 
 // NewSigWorker builds a worker.
@@ -179,6 +183,15 @@ func NewSigWorker(nkeys int) (*SigWorker, error) {
 		return nil, err
 	}
 	return &SigWorker{Rig: r, NKeys: nkeys, Recycle: 3000, Creds: &checker.Credentials{Client: rig.DefaultClient, RequestID: "r", IP: "10.0.0.1"}, VerifyLast: true}, nil
+}
+
+// NewSigWorkerOn builds a worker on a caller-provided storage directory (never recycled).
+func NewSigWorkerOn(dir string, nkeys int) (*SigWorker, error) {
+	r, err := rig.NewSignerRig(rig.SignerOpts{Dir: dir})
+	if err != nil {
+		return nil, err
+	}
+	return &SigWorker{Rig: r, NKeys: nkeys, Recycle: 1 << 30, Pinned: true, Creds: &checker.Credentials{Client: rig.DefaultClient, RequestID: "r", IP: "10.0.0.1"}, VerifyLast: true}, nil
 }
 
 // Close releases the rig.
@@ -200,7 +213,7 @@ func resLetter(r core.Result) string {
 // Exec replays path on fresh accounts and returns the trace.
 func (w *SigWorker) Exec(path []SOp) (*Trace, error) {
 	w.runs++
-	if w.runs%w.Recycle == 0 {
+	if w.runs%w.Recycle == 0 && !w.Pinned {
 		w.Rig.Close()
 		r, err := rig.NewSignerRig(rig.SignerOpts{})
 		if err != nil {
@@ -216,13 +229,25 @@ func (w *SigWorker) Exec(path []SOp) (*Trace, error) {
 			accts[i] = w.Rig.AddSymAccount("Wallet 1", "", "pass", true)
 		}
 	}
+	w.Accts = accts
 	tr := &Trace{}
-	for step, op := range path {
-		last := step == len(path)-1
+	if err := w.Continue(tr, path, true); err != nil {
+		return nil, err
+	}
+	return tr, nil
+}
+
+// Continue applies more operations to the accounts of the last Exec, appending to tr (records are re-read).
+func (w *SigWorker) Continue(tr *Trace, path []SOp, verifyLast bool) error {
+	accts := w.Accts
+	base := len(tr.Obs)
+	for i, op := range path {
+		step := base + i
+		last := verifyLast && i == len(path)-1
 		switch op.Kind {
 		case "restart":
 			if err := w.Rig.Restart(); err != nil {
-				return nil, err
+				return err
 			}
 			tr.Obs = append(tr.Obs, "ok")
 		case "att":
@@ -292,9 +317,10 @@ func (w *SigWorker) Exec(path []SOp) (*Trace, error) {
 				tr.SigProblems = append(tr.SigProblems, fmt.Sprintf("signature presence %v with result %s for %s", len(sig) > 0, resLetter(res), op))
 			}
 		default:
-			return nil, fmt.Errorf("unknown op kind %q", op.Kind)
+			return fmt.Errorf("unknown op kind %q", op.Kind)
 		}
 	}
+	tr.Recs = tr.Recs[:0]
 	for _, a := range accts {
 		var kr KeyRec
 		var raw []byte
@@ -304,7 +330,7 @@ func (w *SigWorker) Exec(path []SOp) (*Trace, error) {
 		kr.PropRaw = hex.EncodeToString(raw)
 		tr.Recs = append(tr.Recs, kr)
 	}
-	return tr, nil
+	return nil
 }
 
 func (w *SigWorker) noteAtt(tr *Trace, step int, last bool, e Ent, a *rig.Acct, res core.Result, sig []byte) {
